@@ -7,7 +7,8 @@ SPEC = {
                  'max_hits_per_layer, ceilos, wmo.perc2okta, wmo.okta2code) on symbolic hit tables with a symbolic '
                  'assignment of hits to sets; counting oracle written over pairwise z3 terms; per-path unsat',
     'bounds': {'quick': 'tables of <= 3 hits on <= 3 ceilometers (4 hits on one), <= 2 sets, any times/heights/types, MAX_HITS_OKTA0 and '
-                        'MAX_HOLES_OKTA8 any non-negative ints; binning for larger totals through C18',
+                        'MAX_HOLES_OKTA8 any non-negative ints; the same with concrete buffers (0..1 hits, 0..2 holes) so that the code\'s arithmetic on counts runs in native binary64 '
+                        '(3-4 hits on one ceilometer, 3 on two); binning for larger totals through C18',
                'thorough': 'tables of <= 4 hits on <= 2 ceilometers, 3 hits on 3 ceilometers'},
     'outside': 'totals above the row bound other than through C18 (perc2okta for all n <= m); NaN time stamps',
     'budget_s': {'quick': 900, 'thorough': 3000},
@@ -18,6 +19,10 @@ def h_amount(E, N, C, which):
     return tables.h_metarize(E, N, C, which, 0, 'C03')
 
 
+def h_amount_concrete(E, N, C, which):
+    return tables.h_metarize(E, N, C, which, 0, 'C03C')
+
+
 HARNESSES = [
     H('H-amount', h_amount, quick=[(1, 1, 'layers'), (2, 2, 'layers'), (3, 2, 'layers'), (3, 3, 'layers'), (4, 1, 'layers'), (2, 2, 'slices'), (2, 2, 'groups')],
       thorough=[(1, 1, 'layers'), (2, 2, 'layers'), (3, 2, 'layers'), (3, 3, 'layers'), (4, 1, 'layers'), (4, 2, 'layers'), (3, 2, 'slices'), (3, 2, 'groups')],
@@ -26,5 +31,11 @@ HARNESSES = [
              'okta 8 by the buffer', 'okta from the binning'],
       assumptions=['statsmodels LOWESS replaced by a stub returning arbitrary finite values (fluffiness is not part of C03)'],
       doc='real metarize(which): n_hits / total / perc / okta with both buffers / monotonicity across sets / code prefix'),
+    H('H-amount-fp', h_amount_concrete, quick=[(3, 1, 'layers'), (4, 1, 'layers'), (3, 2, 'layers')],
+      thorough=[(3, 1, 'layers'), (4, 1, 'layers'), (3, 2, 'layers'), (5, 1, 'layers'), (4, 2, 'layers')],
+      float_model='R', cover=['okta 8 by the buffer', 'okta 0 by the buffer'],
+      assumptions=['statsmodels LOWESS replaced by a stub returning arbitrary finite values (fluffiness is not part of C03)'],
+      doc='same clauses with the two buffers concrete (0..1 hits, 0..2 holes, chosen by forks): counts and thresholds are concrete on '
+          'every path, so the code\'s own arithmetic on them runs in native binary64 (a threshold that is off by one ulp shows)'),
 ]
 get_harness = make_get(HARNESSES)
